@@ -46,6 +46,23 @@ example :
     ∃ k, parseBody b = some (k, []) ∧ serializeBody k = b ∧ sigPrefix k = [0x99, 0, 13] := by
   refine ⟨⟨0x6553F100, 1, .rsa ⟨9, [1, 0xFF]⟩ ⟨2, [3]⟩⟩, by decide, by decide, by decide⟩
 
+/-- the regenerated fact: a key lifetime of zero is treated like an absent one -/
+theorem lifetime_zero_is_never : Gen.pgpLifetimeZeroIsNever = true := by decide
+
+/-- EXPIRY: `never` exactly when the key expiration subpacket is absent or zero (RFC 4880 5.2.3.6); otherwise the UTC
+    date of key creation time plus lifetime — for all creation times and lifetimes (no 32-bit wrap: the sum is taken
+    in unbounded arithmetic) -/
+theorem expiry_spec (keyCreated : Nat) :
+    expiresText keyCreated none = strBytes "never" ∧ expiresText keyCreated (some 0) = strBytes "never" ∧
+    ∀ l, l ≠ 0 → expiresText keyCreated (some l) = Civil.fmtDate (((keyCreated + l : Nat) : Int) / 86400) := by
+  refine ⟨rfl, ?_, ?_⟩
+  · simp [expiresText, expiresTextB, lifetime_zero_is_never]
+  · intro l hl; simp [expiresText, expiresTextB, hl]
+
+/-- WITNESS (finding D59): without the zero test a lifetime of 0 shows the creation date as the expiry date -/
+theorem expiry_zero_witness : expiresTextB false 1700000000 (some 0) = strBytes "2023-11-14" ∧
+    expiresTextB true 1700000000 (some 0) = strBytes "never" := by decide
+
 /-- THE PACKET AS IT APPEARS IN THE INPUT: a packet framed per RFC 4880 §4.2 — new format with a one-, two- or
     five-octet length, old format with a one-, two- or four-octet length, or partial body lengths — is handed to the
     key parser with exactly its tag and exactly its body octets, and reading continues right after it -/
